@@ -51,10 +51,50 @@ INFO = {
  "C15-b-rpm-selectors-skip-computed": ("RPM selector expansion skips properties whose stored value is None (computed properties)", "selector RPM to an object with a computed property (device object)", "caught as built"),
  "C20-a-last-day-wrong-century-february": ("last-day-of-month helper called with a doubly offset year in match_date", "the 'last day' pattern in February 2000 / 2100", "caught as built (2000 and 2100 are among the quick tier's seven years)"),
  "C20-b-exception-only-sleeps": ("eval() returns 24:00 as next transition for schedules without weekly schedule", "exception-only schedule with an exception entry still to come that day", "caught as built (next-transition soundness)"),
+ "C01-c-enumerated-shared-encode-cache": ("Enumerated.encode memoises octets in a dict shared by all enumeration classes, keyed by name", "two enumeration classes sharing a name with different numbers both encode it in one process", "caught as built"),
+ "C01-d-decode-extensions-swapped": ("Tag.decode reads the length escape before the extended tag-number octet", "context number >= 15 together with content >= 5 octets", "caught as built"),
+ "C02-c-decode-escape-order": ("Tag.decode: extended tag number fetched after the length escape", "a tag needing both escapes at once (number >= 15, length >= 5)", "caught as built"),
+ "C02-d-four-octet-length-one-early": ("Tag.encode switches to the four-octet length at exactly 65535", "a data length of exactly 65535", "caught as built"),
+ "C03-c-apcisequence-keeps-taglist": ("APCISequence keeps its tag list between encodings", "encode the same PDU object more than once", "missed at first (every object encoded once); caught after 'the same objects encoded once more' was added"),
+ "C03-d-empty-list-guard-merged": ("Sequence.decode: merged branches lose the 'untagged list' guard", "record-access file services with zero records", "caught as built"),
+ "C04-c-zero-retries-becomes-default": ("`getattr(...) or default`: a configured retry count of 0 becomes 3", "retries = 0 with a lost frame or a silent peer", "missed at first (time bound too generous, exactly one outcome still delivered); caught after the bound became exact for unsegmented transactions and request transmissions were counted against retries + 1"),
+ "C04-d-segment-retry-no-timer": ("segment retry path calls restart_timer, which now returns early when no timer is scheduled", "segmented request and two consecutive losses in the segment phase", "caught as built"),
+ "C05-c-final-ack-without-sentall": ("final-ack test without the sentAllSegments guard (8-bit comparison)", "fault-free transfer of more than 256 segments with (count-1) mod 256 a multiple of the window", "missed at first (the '257-segment' transfers really had 258 segments: payload overhead of long strings miscounted); caught after exact segment counts x windows were enumerated"),
+ "C05-d-retry-keeps-stale-window-base": ("whole-request retry no longer resets initialSequenceNumber", "segmented request fully acked, then exactly the server's answer frame lost, request of >= window+2 segments", "caught as built"),
+ "C06-c-whois-answered-through-asking-net": ("Who-Is-Router answered with a path leading back through the asking network (depends on port bind order)", "two routers on a shared network, destination two hops away, cold station", "caught as built (seed rotates the port binding order)"),
+ "C06-d-last-leg-ignores-hop-zero": ("hop-count check moved off the directly connected last leg", "packet reaching the final router with hop count exactly 0", "caught as built (crafted initial hop counts)"),
+ "C07-c-segack-signed-octets": ("SegmentAck octets unpacked as signed", "invoke ID / sequence number / window >= 128", "caught as built"),
+ "C07-d-maxsegs-dropped-when-sa-clear": ("max-segments nibble only packed when segmented-response-accepted is set", "SA = 0 with max-segments code 1..7", "caught as built"),
+ "C08-c-zero-length-source-accepted": ("source sanity check tests addrLen == 0 on a RemoteBroadcast (None)", "hand-made frame with SLEN = 0", "caught as built"),
+ "C08-d-vendor-id-dropped-at-0x80": ("vendor-ID condition `> 0x80` instead of `>= 0x80` on both sides", "message type exactly X'80'", "caught as built"),
+ "C09-c-header-before-length-refresh": ("AnnexJCodec.indication writes the length before the message recomputes it", "message object filled or changed after construction", "caught as built (put_data hand-over form)"),
+ "C09-d-decoded-addresses-cached": ("decoded B/IP addresses come from an lru_cache and are shared; BDT decoders set addrMask on them", "same address with two masks in one table or across frames", "caught as built"),
+ "C10-d-segment-timer-armed-after-resend": ("segment retry timer armed after the retransmission (which may raise)", "corrupted SegmentACK naming a segment past the end of a two-segment response, then the timer, then the same invoke ID again", "missed at first (device never in the middle of a transaction when garbage arrived); caught after the dialogue part was added"),
+ "C10-e-deferred-per-call-guard-removed": ("per-call guard around deferred functions removed again (reverts fix 4a46b7a)", "garbage and a valid request in one deferred batch (as UDPDirector hands them over)", "missed by C10 at first (vlan delivers through tasks; C14 catches it); caught after the deferred-batch delivery mode was added"),
+ "C11-c-free-id-search-not-circular": ("free-ID search as one pass over sorted busy IDs (not circular)", "IDs 255 and 0 both live for one peer when the counter comes round", "caught as built (allocation sweep)"),
+ "C11-d-ack-dispatch-keeps-walking": ("ack dispatch loop calls the transaction without break", "application re-uses its chosen ID from inside the confirmation while a later-started request is outstanding", "missed at first (requests only at explorer-chosen points); caught after callback-submitted requests and 'one reply frame completes at most one request' were added"),
+ "C12-c-readdressed-device-hidden": ("DeviceInfoCache re-keying with setdefault: a re-addressed device hides behind the previous record of that address", "device A at station 10, device B at 20, B re-announces from 10, request to 10", "missed at first (one peer only); caught after the identity-history part was added (its first reference forgot that a device that moved away leaves its old address unknown - corrected, see section 6)"),
+ "C12-d-response-window-fixed-by-first-ack": ("ServerSSM takes the window only from the first SegmentACK", "client lowers the window in a later ack", "missed at first (real clients keep their window); caught after the scripted-client window part was added"),
+ "C13-c-onehop-forward-skips-foreign": ("BBMD returns early for a Forwarded-NPDU that arrived by directed broadcast", "one-hop peers plus a foreign device at the receiving BBMD", "caught as built"),
+ "C13-d-renewal-without-grace": ("renewal of an existing FDT entry sets remaining = TTL without grace", "registration instant off the whole second", "caught as built (start phases .25/.75)"),
+ "C14-c-scheduled-flag-cleared-after-handler": ("isScheduled cleared after the handler returns", "a task that re-arms itself from inside its own handler", "missed at first (callbacks only re-installed other tasks); caught after self-re-arming variants were added"),
+ "C14-d-deferred-remainder-requeued-behind": ("after a raising deferred function the remainder is re-queued behind functions deferred meanwhile", "raising member + nested deferral + later member in one batch", "caught as built"),
+ "C15-c-shared-priority-array-default": ("priority array as shared property default (same idea as C17-b, other site)", "two objects of one commandable class", "not caught by C15 (commandable objects are left to C17); caught by C17 (`init:fresh-object-not-in-initial-state`)"),
+ "C15-d-rpm-wraps-list-valued-elements": ("RPM helper loses the 'no array index' term (partial revert of fix 2f3199c)", "RPM with an array index on an array of bit strings", "caught as built"),
+ "C16-c-baseline-ignores-targeted-notification": ("increment baseline only follows broadcast notifications", "sub-increment drift, then a renewal / second subscriber, then a write between the two baselines", "caught as built"),
+ "C16-d-unmatched-cancel-tears-down-detection": ("a cancel that matches nothing deletes the object's shared detection", "repeated or late cancel while another subscriber is live", "caught as built"),
+ "C17-c-commanding-slot-cache-not-cleared": ("cached 'slot in command' not reset when the array runs empty", "command at p, empty the array, command at q > p", "caught as built"),
+ "C17-d-priority-zero-becomes-16": ("`priority or 16`", "priority 0", "caught as built"),
+ "C18-c-ip-octets-not-range-checked": ("dotted quad folded by hand, only the total range-checked", "an octet above 255 in position 2-4", "caught as built"),
+ "C18-d-bytearray-not-copied": ("raw-octets branch keeps the caller's bytearray", "Address(bytearray) then hash() or buffer reuse", "first seen as a crash of the check (hash() raised inside it); now `hash:raises` / `denotes:wrong-octets`, and any exception escaping into a check is reported as `check-crashed` with its traceback"),
+ "C19-c-remove-helper-trusts-stale-snet": ("shared removal helper keys on RouterInfo.snet, which renumbering never updates", "learn, renumber, then competing announcement or forget", "caught as built"),
+ "C19-d-sadr-learning-memo": ("per-adapter memo skips SADR learning when the pair equals the last one", "same (router, network) sighting twice with an announcement or forget in between", "missed at first: the canonical state of the wire part was hand-picked and merged states that differ in the new memo field, so the BFS reached the middle state by a shorter history; caught after the state got an over-approximating component (all scalar attributes of adapters and cache)"),
+ "C20-c-pending-higher-priority-forgotten": ("winning exception returns its own next transition, not the minimum", "two exceptions of different priority on one day, the higher one starting later", "caught as built"),
+ "C20-d-rearm-dies-at-month-end": ("datetime_to_time via datetime(): day+1 not normalised at 24:00", "timer-driven run across a month end", "caught as built"),
 }
 
 # seeded changes whose own property's check is silent but a sibling property's check decides them
-DETECTED_BY = {"C15-a-falsy-command-stored-as-null": "C17"}
+DETECTED_BY = {"C15-a-falsy-command-stored-as-null": "C17", "C15-c-shared-priority-array-default": "C17"}
 
 
 def main():
@@ -81,9 +121,12 @@ def main():
         cr = meta["check_result"]
         sig = ""
         if "signature=" in cr["first_violation"]:
-            sig = cr["first_violation"].split("signature=")[1].split(" count=")[0][:90]
+            sig = cr["first_violation"].split("signature=")[1].split(" count=")[0][:90].replace("|", " / ")
         by = meta.get("checked_with_property", meta["property"])
         rows.append("| %s | %s | %s | %s | %s |" % (name, what, needs, "%s: exit %d, `%s`" % (by, cr["exit"], sig) if cr["exit"] == 1 else "**not caught** (exit %d)" % cr["exit"], story))
+    n_built = sum(1 for r in rows if "| caught as built" in r)
+    n_sib = sum(1 for r in rows if "| not caught by " in r)
+    sys.stderr.write("seeds=%d caught-as-built=%d sibling=%d strengthened=%d\n" % (len(rows), n_built, n_sib, len(rows) - n_built - n_sib))
     print("| seeded change | what was changed | what it needs to manifest | quick check of its property | history |")
     print("|---|---|---|---|---|")
     print("\n".join(rows))
